@@ -22,7 +22,13 @@ def _labels(ctx, shape, str_labels=False, tag=""):
     el = [ctx.label(f"{tag}e{j}", group=f"{tag}e") for j in range(M)]
     ctx.distinct(nl)
     ctx.distinct(el)
-    if str_labels == "tuple":
+    if str_labels == "idtuple":
+        # the last edge's id is the tuple of the (ordered) first two ids: the id
+        # merge_duplicate_edges(rename="tuple") would give their merge
+        if M >= 3:
+            ctx.assume(el[0] < el[1])
+            el[M - 1] = (el[0], el[1])
+    elif str_labels == "tuple":
         # tuple labels (admissible ids: update_uid_counter names them, rename="tuple" makes them)
         if nl:
             nl[0] = (f"{tag}tn", 0)
